@@ -176,7 +176,14 @@ pub fn run_case(c: &Case, st: &mut Stats) -> Result<(), Failure> {
         Edit::ChangeValue(k, v) => {
             if let Some(w) = pick_h1(*k) {
                 let mut d = doc.clone().unwrap_or_default();
-                d.insert(w.clone(), VALUES[*v as usize % VALUES.len()].to_string());
+                // sometimes the key is written with punctuation around the word ("dr."): read at creation or re-read
+                // by update-engine, the engine must make the same of it
+                let key = match *v / 7 % 5 {
+                    3 => format!("{w}."),
+                    4 => format!("\"{w}\""),
+                    _ => w.clone(),
+                };
+                d.insert(key, VALUES[*v as usize % VALUES.len()].to_string());
                 touched.push(w);
                 write_ac(&d, &mut clock);
                 doc = Some(d);
